@@ -17,3 +17,6 @@ package monotime
 //@   inline
 //@ func (t Time) Equal
 //@   inline
+
+//@ func (t Time) ToTime
+//@   modifies nothing
